@@ -11,6 +11,8 @@
  *        MD5Init / MD5Update per chunk / MD5Final on a context pre-filled with 0xEE; the whole
  *        context (state, count, 64-byte buffer) is dumped after Init and after every Update.
  *   md5cnt <count0> <count1> <hex> ...   the same with a preset bit count (carry logic)
+ *   big <nbytes> <seed> <kind>...   huge inputs (implementation vs oracle only), see below
+ *   md5len <count0> <count1> <inputLen>   bit-count bookkeeping of one MD5Update of that length
  *   mkfile <size> <seed>         (re)create the data file: LCG bytes
  *   md5file <offset> <nbytes> [k1 k2 ...]
  *        qhashmd5_file over the data file; the i-th read() of the call returns at most k_i bytes
@@ -155,6 +157,44 @@ int main(void) {
                 free(dg);
             }
             free(c);
+        } else if (nw >= 4 && !strcmp(op, "big")) {
+            /* big <nbytes> <seed> <kind>...: one exactly sized buffer of nbytes (a 251-byte block of
+             * LCG bytes depending on seed, repeated, cut at nbytes), each listed function once */
+            size_t n = (size_t) strtoull(w[1], NULL, 10); uint32_t x = (uint32_t) strtoul(w[2], NULL, 10);
+            unsigned char blk[251];
+            for (int i = 0; i < 251; i++) { x = x * 1103515245u + 12345u; blk[i] = (unsigned char)(x >> 16); }
+            unsigned char *buf = malloc(n ? n : 1);
+            if (!buf) { printf("no-memory\n"); fflush(stdout); free(w); continue; }
+            for (size_t o = 0; o < n; o += 251) memcpy(buf + o, blk, n - o < 251 ? n - o : 251);
+            unsigned char *rb = malloc(16);
+            for (int i = 3; i < nw; i++) {
+                if (i > 3) printf(" ");
+                if (!strcmp(w[i], "fnv32")) printf("fnv32=%08x", (unsigned) qhashfnv1_32(buf, n));
+                else if (!strcmp(w[i], "fnv64")) printf("fnv64=%016llx", (unsigned long long) qhashfnv1_64(buf, n));
+                else if (!strcmp(w[i], "m32")) printf("m32=%08x", (unsigned) qhashmurmur3_32(buf, n));
+                else if (!strcmp(w[i], "md5") || !strcmp(w[i], "m128")) {
+                    bool ok = w[i][1] == 'd' ? qhashmd5(buf, n, rb) : qhashmurmur3_128(buf, n, rb);
+                    printf("%s=", w[i]);
+                    if (ok) puthex(stdout, rb, 16); else printf("false");
+                } else printf("%s=bad-kind", w[i]);
+            }
+            free(rb); free(buf);
+        } else if (nw == 4 && !strcmp(op, "md5len")) {
+            /* md5len <count0> <count1> <inputLen>: the length bookkeeping of ONE MD5Update call on a
+             * buffer of exactly inputLen bytes (contents irrelevant: zeros) from a preset bit count;
+             * prints the new count[] and the buffer index derived from it */
+            size_t n = (size_t) strtoull(w[3], NULL, 10);
+            unsigned char *buf = calloc(n ? n : 1, 1);
+            if (!buf) { printf("no-memory\n"); fflush(stdout); free(w); continue; }
+            MD5_CTX *c = malloc(sizeof *c);
+            memset(c, 0xEE, sizeof *c);
+            MD5Init(c);
+            c->count[0] = (u_int32_t) strtoul(w[1], NULL, 10);
+            c->count[1] = (u_int32_t) strtoul(w[2], NULL, 10);
+            MD5Update(c, buf, (unsigned int) n);
+            printf("cnt %u %u idx %u", (unsigned) c->count[0], (unsigned) c->count[1],
+                   (unsigned) ((c->count[0] >> 3) & 0x3F));
+            free(c); free(buf);
         } else if (nw == 3 && !strcmp(op, "mkfile")) {
             long size = atol(w[1]); uint32_t x = (uint32_t) strtoul(w[2], NULL, 10);
             if (datafd >= 0) close(datafd);
